@@ -24,7 +24,7 @@ LEVEL = 'exploration'
 WORKERS = {'quick': 10, 'thorough': 14}
 BUDGET_S = {'quick': 45, 'thorough': 360}
 REQUIRED_COUNTERS = ['moving_windows', 'pattern_windows', 'pad_cells', 'extract_rows', 'peak_calls', 'peak_calls_exhaustive', 'width_calls', 'peak_candidates_dropped',
-                     'boundscheck_peak_calls']
+                     'boundscheck_peak_calls', 'history_calls', 'extract_many_calls']
 RULE = ('cases: moving_{sum,mean,var,std,skew,kurtosis} on 1-3-D integer and float arrays, every axis, windows 1..len; correlation / distance / bcdc on '
         'integer and float traces with embedded / scaled / constant-offset patterns; pad and extract_around_indexes on random shapes / offsets / modes; '
         'find_peaks: ALL signals of length <= 6 (quick) / 7 (thorough) over {0,1,2,3} x distances 0..8 x heights {-inf, 1, 2.5} (flag exhaustive) + random '
@@ -53,6 +53,11 @@ def cases(tier, seed):
     for L in range(1, 8):
         out.append(dict(gen='width_exh', L=L, must=True))
     out.append(dict(gen='peaks_boundscheck', n=300 if tier == 'quick' else 3000, sub=core.subseed('C19b', seed), must=True))
+    # thousands of indexes in one extraction; one buffer refilled in place between calls
+    for j, k in enumerate((1025, 1500, 2500, 4097)):
+        out.append(dict(gen='extract_many', k=k, sub=core.subseed('C19em', seed, j), must=True))
+    for j in range(6 if tier == 'quick' else 200):
+        out.append(dict(gen='history', sub=core.subseed('C19h', seed, j), must=j < 6))
     rs = np.random.default_rng(core.subseed('C19', seed))
     n_rand = 2500 if tier == 'quick' else 40000
     kinds = ['moving'] * 4 + ['pattern'] * 2 + ['pad', 'extract'] + ['peaks'] * 3 + ['width'] * 2
@@ -594,7 +599,116 @@ def _boundscheck_child(sub, n):
     print(json.dumps(dict(calls=calls, index_errors=errs, first=first, spec=spec)))
 
 
+def run_extract_many(case):
+    """One extraction around thousands of indexes (more than any plausible internal block), on a signal whose level drifts so that
+    the slices differ from block to block."""
+    from scared import signal_processing as sp
+    t = core.Tally()
+    rng = gen.rng_of(case['sub'])
+    k = int(case['k'])
+    before, after = int(rng.integers(0, 5)), int(rng.integers(0, 5))
+    N = int(rng.integers(3 * k, 5 * k))
+    data = (np.arange(N) * float(rng.choice([0.01, 0.5])) + rng.integers(0, 50, N)).astype(['float64', 'float32', 'int64'][int(rng.integers(3))])
+    idx = np.sort(rng.choice(np.arange(before, N - after), k, replace=False)) if rng.random() < 0.7 else rng.integers(before, N - after, k)
+    ro = data.copy()
+    ro.setflags(write=False)
+    rows = [[data[int(i) + o] for o in range(-before, after + 1)] for i in idx.tolist()]
+    for mode in (sp.ExtractMode.AVERAGE, sp.ExtractMode.STACK, sp.ExtractMode.CONCATENATE):
+        info = dict(N=N, before=before, after=after, indexes=k, mode=mode.name, dtype=str(data.dtype))
+        out = np.asarray(sp.extract_around_indexes(ro, idx, before, after, mode))
+        t.count('extract_rows', len(rows))
+        t.count('extract_many_calls')
+        if mode is sp.ExtractMode.STACK:
+            exp = np.array(rows)
+            ok = out.shape == exp.shape and bool(np.array_equal(out, exp))
+        elif mode is sp.ExtractMode.CONCATENATE:
+            exp = np.array([v for r in rows for v in r])
+            ok = out.shape == exp.shape and bool(np.array_equal(out, exp))
+        else:
+            exp = np.array([math.fsum(float(r[c]) for r in rows) / len(rows) for c in range(before + after + 1)])
+            ok = out.shape == exp.shape and bool(np.allclose(out, exp, rtol=1e-6 if data.dtype == np.float32 else 1e-11, atol=0))
+        t.check(ok, 'extract_value', lambda: dict(info, got=np.asarray(out).ravel().tolist()[:6], expected=exp.ravel().tolist()[:6]))
+    return t.result(sig=f"extract_many|{k}|{before}|{after}|{data.dtype}", sample=dict(case=case))
+
+
+def run_history(case):
+    """A sequence of calls on a few buffers that the caller refills in place between calls (acquisition buffers): each result must be
+    the one a first call on a fresh array with the same content gives, and results kept by the caller must not change afterwards."""
+    from scared import signal_processing as sp
+    t = core.Tally()
+    rng = gen.rng_of(case['sub'])
+    L = int(rng.integers(8, 60))
+    bufs = [rng.integers(0, 40, L).astype('float64'), rng.integers(0, 40, (3, L)).astype('float64'), rng.integers(0, 40, L).astype('int32')]
+    pattern = rng.integers(0, 40, int(rng.integers(2, 6))).astype('float64')
+    ops = ['sum', 'mean'] * 3 + ['var', 'std', 'skew', 'kurtosis', 'correlation', 'distance', 'bcdc', 'find_peaks', 'find_width']
+    kept = []
+    pending = []
+    log = []
+    last = None
+    for c in range(int(rng.integers(6, 16))):
+        b = int(rng.integers(len(bufs))) if last is None or rng.random() < 0.35 else last        # mostly the same buffer again
+        buf = bufs[b]
+        if rng.random() < 0.7:
+            how = int(rng.integers(3))
+            if how == 0:
+                buf[...] = rng.integers(0, 40, buf.shape)
+            elif how == 1:
+                buf[..., int(rng.integers(L))] += 17
+            else:
+                buf *= 2
+        op = ops[int(rng.integers(len(ops)))]
+        w = int(rng.integers(2, 7)) if last is None or rng.random() < 0.5 else log[-1][2]
+        if op in ('sum', 'mean', 'var', 'std', 'skew', 'kurtosis'):
+            call = lambda a: np.asarray(getattr(sp, 'moving_' + op)(a, w, -1))
+        elif op in ('correlation', 'distance', 'bcdc'):
+            if buf.ndim != 1:
+                continue
+            call = lambda a: np.asarray(getattr(sp, op)(a, pattern))
+        elif op == 'find_peaks':
+            if buf.ndim != 1:
+                continue
+            call = lambda a: np.asarray(sp.find_peaks(a, w, 5))
+        else:
+            if buf.ndim != 1:
+                continue
+            call = lambda a: np.asarray(sp.find_width(a, sp.Direction.POSITIVE, 20, 1))
+        with np.errstate(all='ignore'):
+            try:
+                got = call(buf)
+            except Exception as e:
+                got = ('raised', type(e).__name__)
+        log.append((op, b, w))
+        last = b
+        t.count('history_calls')
+        for (c0, op0, obj, snap) in kept:
+            t.check(np.array_equal(obj, snap, equal_nan=True), 'earlier_result_changed_by_a_later_call', lambda: dict(case=case, returned_by_call=c0, op=op0, after_call=c, history=log[-5:]))
+        # the reference call on a fresh array is made after the whole sequence, so that it does not take part in the history
+        pending.append((c, op, b, w, call, buf.copy(), got if isinstance(got, tuple) else got.copy(), list(log[-5:])))
+        if not isinstance(got, tuple) and got.dtype.kind in 'fiu':
+            kept.append((c, op, got, got.copy()))
+            kept = kept[-6:]
+    for (c, op, b, w, call, content, got, hist) in pending:
+        with np.errstate(all='ignore'):
+            try:
+                exp = call(content.copy())
+            except Exception as e:
+                exp = ('raised', type(e).__name__)
+        if isinstance(got, tuple) or isinstance(exp, tuple):
+            same = isinstance(got, tuple) and isinstance(exp, tuple) and got == exp
+        else:
+            same = got.shape == exp.shape and bool(np.array_equal(got, exp, equal_nan=True))
+        t.count('history_results_vs_fresh_call')
+        t.check(same, 'result_depends_on_earlier_calls', lambda: dict(case=case, call=c, op=op, buffer=b, window=w, history=hist,
+                                                                      got=None if isinstance(got, tuple) else got.ravel().tolist()[:5], fresh=None if isinstance(exp, tuple) else exp.ravel().tolist()[:5]))
+    return t.result(sig=f"history|{case['sub']}", sample=dict(case=case, calls=log[-8:]))
+
+
 def run_case(case):
+    if case['gen'] in ('extract_many', 'history'):
+        r = (run_extract_many if case['gen'] == 'extract_many' else run_history)(case)
+        for c in REQUIRED_COUNTERS:
+            r.setdefault('counters', {}).setdefault(c, 0)
+        return r
     r = dict(moving=run_moving, pattern=run_pattern, pad=run_pad, extract=run_extract, peaks_exh=run_peaks_exh, peaks=run_peaks,
              width_exh=run_width_exh, width=run_width, peaks_boundscheck=run_boundscheck)[case['gen']](case)
     for c in REQUIRED_COUNTERS:
